@@ -258,7 +258,8 @@ Definition value_of_text (t : text) (strdef is16 : bool) (dflt_ext : bool) : res
       let as_string :=
         if strdef then
           match rev rest with
-          | cl :: inner_rev => if cl =? c0 then Some (VStr (rev inner_rev)) else None
+          | cl :: inner_rev =>      (* every character must fit in one byte (repair F51) *)
+              if (cl =? c0) && forallb (fun c => c <? 256) inner_rev then Some (VStr (rev inner_rev)) else None
           | [] => Some (VStr [])          (* value[-1] == value[0] for a one-character string; [1:-1] = "" *)
           end
         else None in
